@@ -142,7 +142,10 @@ impl CpcUnion {
         match &self.state {
             UnionState::Accumulator(sketch) => {
                 if sketch.is_empty() {
-                    CpcSketch::with_seed(self.lg_k, self.seed)
+                    // an empty result is a union result like any other
+                    let mut result = CpcSketch::with_seed(self.lg_k, self.seed);
+                    result.merge_flag = true;
+                    result
                 } else {
                     let mut sketch = sketch.clone();
                     assert_eq!(sketch.flavor(), Flavor::Sparse);
